@@ -9,7 +9,7 @@ LEVEL = "proof"
 
 def components():
     return [T.IntStore(), T.Dec64Store(), T.Dec64Next(), T.BoolStore(), T.ValCmp(), T.ValSort(), T.RangeCheck(),
-            T2.EnumStore(), T2.BitsStore(), T2.BinStore(), T2.StrLenStore(), T2.UnionStore(), T2.Cmp2(), T2.Sort2()]
+            T2.EnumStore(), T2.BitsStore(), T2.BinStore(), T2.StrLenStore(), T2.UnionStore(), T2.Cmp2(), T2.Sort2(), T2.Ip4PrefixHost()]
 
 
 def oracles_():
@@ -38,7 +38,12 @@ MANIFEST = {
             "through XML, JSON string and literal, lyd_new_term, lyd_new_list, lyd_new_path value / key predicate / "
             "leaf-list predicate, lyd_find_path, lyd_value_validate, lyd_change_term, a schema default compiled on the fly, "
             "lyd_dup_single and a LYB round trip; all must agree on the verdict and on the canonical string except for the "
-            "format-specific rules written down in SourceIndep.expect() with their RFC sections.",
+            "format-specific rules written down in SourceIndep.expect() with their RFC sections. The derived types of "
+            "ietf-inet-types / ietf-yang-types (ipv4/ipv6 address with and without zone, ip-address, ipv4/ipv6/ip-prefix for "
+            "every prefix length, date-and-time, hex-string, phys-address, mac-address, uuid) and identityref are checked by the "
+            "DerivedRfc oracle (search) against a Python reference written from RFC 6991, RFC 5952 and RFC 3339: canonical "
+            "string, idempotence, equality and duplicate detection modulo canonical form, insertion-order independence; the "
+            "host-bit masking of ipv4-prefix has a value-level Coq model (C03_ipv4_prefix_*, T2 t2-ip4p).",
     "note": "Modelled C: ly_parse_int/uint (strtoll model), lyplg_type_parse_dec64, decimal64 printing, lyplg_type_validate_range, "
             "boolean store; lyplg_type_store_enum/sort_enum, bits_str2bitmap/bitmap2items/items2canon/compare/sort, "
             "binary_base64_newlines/validate/decode/encode + store/compare/sort, ly_utf8len + string length check (UTF-8 "
